@@ -228,6 +228,27 @@ func c13Core(run *mon.Run) {
 	}()
 	wg.Wait()
 	c13KMAC(run)
+	// the Equal helper of the Hash type is byte equality (also for different lengths, nil and empty)
+	{
+		r := run.Rand("hash-type")
+		vals := []hash.Hash{nil, {}, {0}, {0, 0}, hash.NewSHA3_256().ComputeHash([]byte("a")), hash.NewSHA3_256().ComputeHash([]byte("a")), hash.NewSHA3_384().ComputeHash([]byte("a")), hash.NewSHA2_256().ComputeHash(nil)}
+		d := hash.NewSHA3_256().ComputeHash([]byte("b"))
+		for i := 0; i < 32; i += 5 {
+			f := append(hash.Hash{}, d...)
+			f[i] ^= 1 << uint(r.IntN(8))
+			vals = append(vals, f)
+		}
+		vals = append(vals, d, d[:31], append(append(hash.Hash{}, d...), 0))
+		for _, a := range vals {
+			for _, b := range vals {
+				run.Eval(1)
+				if got, want := a.Equal(b), bytes.Equal(a, b); got != want {
+					run.Violate("C13:hash-type:equal", fmt.Sprintf("Hash(%x).Equal(%x) = %v, byte equality is %v", []byte(a), []byte(b), got, want), nil)
+				}
+			}
+		}
+		run.Shape("hash-type-helpers")
+	}
 	// constructors, one-shot helpers and fresh hasher objects as pure functions under parallel use
 	{
 		r := run.Rand("parallel")
@@ -240,7 +261,12 @@ func c13Core(run *mon.Run) {
 				func() []byte { return hash.NewSHA3_384().ComputeHash(msg) },
 				func() []byte { return hash.NewSHA2_384().ComputeHash(msg) },
 				func() []byte { return hash.NewKeccak_256().ComputeHash(msg) },
-				func() []byte { h := hash.NewSHA3_256(); _, _ = h.Write(msg[:len(msg)/2]); _, _ = h.Write(msg[len(msg)/2:]); return h.SumHash() },
+				func() []byte {
+					h := hash.NewSHA3_256()
+					_, _ = h.Write(msg[:len(msg)/2])
+					_, _ = h.Write(msg[len(msg)/2:])
+					return h.SumHash()
+				},
 			)
 			key, cust := mon.RandBytes(r, 16+i*17), mon.RandBytes(r, i)
 			size := []int{32, 128, 1, 200}[i%4]
